@@ -71,8 +71,10 @@ def cases(tier, seed, i, n):
                                 continue
                             yield dict(pre=pre, sc=sc, end=end, at=at, args=APP_CLOSE_ARGS[k % len(APP_CLOSE_ARGS)],
                                        sends=sends, ct=(None, 2.0)[k % 2], seg=('coalesced', 'perframe', 'bytewise')[k % 3])
+        if tier == 'thorough':
+            yield gen.mark('full product: server pre-sequence (<=2) x server close behaviour x end x close() event x sends')
         rnd = random.Random(seed * 6151 + 8)
-        for _ in range(2000 if tier == 'quick' else 60000):
+        for _ in range(4000 if tier == 'quick' else 1500000):
             yield dict(pre=[rnd.choice(list(PRE)) for _ in range(rnd.randint(0, 4))], sc=rnd.choice(list(SERVER_CLOSES)),
                        end=rnd.choice(('drop', 'stay')), at=rnd.choice(APP_CLOSE_AT), args=rnd.choice(APP_CLOSE_ARGS),
                        sends=rnd.choice(list(APP_SENDS)), ct=rnd.choice((None, 0, 2.0, 30.0)),
